@@ -16,6 +16,17 @@ structure OpInit (row : InstrRow) (o : Operand) : Prop where
   left : ∀ v, o.left ≠ .val v
   rel : o.kind = .relative → (row.isShortBranch || row.isLongBranch) = true
 
+/-- (batch B2) the signed reading of a good value is at least −65535 -/
+theorem Value.Good.signed_ge {N : Nat} {v : Value} {i : Nat} (h : v.Good N) (hi : v.int? = some i) :
+    -65535 ≤ (if v.isNegative = true then -(i : Int) else (i : Int)) := by
+  cases v with
+  | numeric a _ _ n =>
+    simp only [Value.int?, Option.some.injEq] at hi
+    subst hi
+    have : a ≤ 65535 := h
+    cases n <;> simp [Value.isNegative] <;> omega
+  | _ => simp [Value.isNegative] <;> omega
+
 theorem createOperand_init {s : Str} {row : InstrRow} {o : Operand} (h : createOperand s row = .ok o) :
     OpInit row o := by
   unfold createOperand at h
@@ -38,6 +49,10 @@ theorem createOperand_init {s : Str} {row : InstrRow} {o : Operand} (h : createO
         | (cases h; exact ⟨hv, by simp, by simp, by simp⟩)
         | (obtain ⟨a, ha, hf⟩ := map_ok h; subst hf
            exact ⟨fun N => numericOfInt_good N ha (by omega), by simp, by simp, by simp⟩)
+        | (obtain ⟨a, ha, hf⟩ := map_ok h; subst hf
+           have hge := (hv 0).signed_ge ‹v.int? = some _›
+           rw [if_pos ‹v.isNegative = true›] at hge
+           exact ⟨fun N => numericOfInt_good N ha hge, by simp, by simp, by simp⟩)
   · split at h
     · cases h; exact ⟨fun _ => trivial, by simp, by simp, by simp⟩
     · split at h
@@ -143,7 +158,10 @@ def offBody (ind : Bool) (row : InstrRow) (right : Str) (raw0 : Nat) (needs : Bo
       return { opCode := op, postByte := pb, additional := l, size := size, maxSize := size + 2, needsRes := true,
                choices := [base + 0x0C, base + 0x0D] }
     else
-      let e := l.mode == .extended
+      let e ← if l.mode == .extended then pure true else
+        (match l with
+         | .numeric i _ _ neg => pure (!(is4Bit i neg || is8Bit i neg))
+         | _ => throw .other)
       let sz := size + (if e then 2 else 1)
       let pb ← numV (raw0 ||| (if e then base + 0x0D else base + 0x0C))
       return { opCode := op, postByte := pb, additional := l, size := sz, maxSize := sz }
@@ -323,34 +341,97 @@ structure PkgOK (N : Nat) (row : InstrRow) (o : Operand) (p : Pkg) : Prop where
 theorem translateIndexed_ok {N : Nat} (hN : 0 < N) {row : InstrRow} {o : Operand} {p : Pkg} (hres : OpRes N row o)
     (hk : o.kind = .indexed) (h : translateIndexed o row = .ok p) : PkgOK N row o p := by
   unfold translateIndexed at h
-  simp only [bind, Except.bind, pure, Except.pure, throw, throwThe, MonadExceptOf.throw] at h
+  have hleft := hres.left
+  have hright := hres.right
+  rcases o with ⟨kind, text, value, left, right⟩
+  dsimp only at hk hleft hright
+  subst hk
+  cases left <;> cases right
+  all_goals simp only [bind, Except.bind, pure, Except.pure, throw, throwThe, MonadExceptOf.throw, Bool.and_false, Bool.false_eq_true, if_false] at h
+  case val.some =>
+    generalize translateIndexed.match_3 (fun x => Bool) (Side.val _) _ _ _ = b at h
+    repeat' split at h
+    all_goals first
+    | (cases h; done)
+    | (cases h; exact ⟨trivial, by codes_tac, Or.inl rfl, by simp, by simp⟩)
+    | (have hto := translateOffset_ok hN (Nat.lt_trans (regBits_lt _) (by decide))
+         (hleft _ rfl) h
+       exact ⟨by rw [hto.1]; trivial, hto.2.2, hto.2.1, by simp,
+         fun _ => ⟨hright (by simp), Or.inl rfl⟩⟩)
+  case text.some =>
+    generalize translateIndexed.match_3 (fun x => Bool) (Side.text _) _ _ _ = b at h
+    repeat' split at h
+    all_goals first
+    | (cases h; done)
+    | (cases h; exact ⟨trivial, by codes_tac, Or.inl rfl, by simp, by simp⟩)
+  all_goals
+    repeat' split at h
+    all_goals first
+    | (cases h; done)
+
+theorem extRaw_lt (r : Str) : 0x80 ||| regBits r < 256 :=
+  or_lt_256 (by decide) (Nat.lt_trans (regBits_lt r) (by decide))
+
+theorem translateExtIndirect_ok_val {N : Nat} (hN : 0 < N) {row : InstrRow} {text : Str} {value v : Value} {r : Str}
+    {p : Pkg} (hleft : v.Good N) (hright : value.isLeftRight = true)
+    (h : translateExtIndirect { kind := .extIndirect, text := text, value := value, left := .val v, right := some r } row
+      = .ok p) :
+    PkgOK N row { kind := .extIndirect, text := text, value := value, left := .val v, right := some r } p := by
+  unfold translateExtIndirect at h
+  simp only [bind, Except.bind, pure, Except.pure, throw, throwThe, MonadExceptOf.throw, Bool.and_false,
+    Bool.false_eq_true, if_false] at h
+  generalize translateIndexed.match_3 (fun x => Bool) (Side.val _) _ _ _ = b at h
+  by_cases hc : (row.ind.isNone || row.ind == some 0) = true
+  · rw [if_pos hc] at h; cases h
+  rw [if_neg hc] at h
   repeat' split at h
   all_goals first
-    | (cases h; done)
-    | (cases h; exact ⟨trivial, by codes_tac, Or.inl rfl, by simp [hk], by simp⟩)
-    | (have hto := translateOffset_ok hN (Nat.lt_trans (regBits_lt _) (by decide))
-         (hres.left _ ‹o.left = Side.val _›) h
-       exact ⟨by rw [hto.1]; trivial, hto.2.2, hto.2.1, by simp [hk],
-         fun _ => ⟨hres.right (by simp [‹o.right = some _›]), Or.inl hk⟩⟩)
+  | (cases h; done)
+  | (cases h; exact ⟨trivial, by codes_tac, Or.inl rfl, by simp, by simp⟩)
+  | (have hto := translateOffset_ok hN (extRaw_lt _) hleft h
+     exact ⟨by rw [hto.1]; trivial, hto.2.2, hto.2.1, by simp,
+       fun _ => ⟨hright, Or.inr rfl⟩⟩)
+
+theorem translateExtIndirect_ok_text {N : Nat} (hN : 0 < N) {row : InstrRow} {text : Str} {value : Value} {l r : Str}
+    {p : Pkg} (hright : value.isLeftRight = true)
+    (h : translateExtIndirect { kind := .extIndirect, text := text, value := value, left := .text l, right := some r } row
+      = .ok p) :
+    PkgOK N row { kind := .extIndirect, text := text, value := value, left := .text l, right := some r } p := by
+  unfold translateExtIndirect at h
+  simp only [bind, Except.bind, pure, Except.pure, throw, throwThe, MonadExceptOf.throw, Bool.and_false,
+    Bool.false_eq_true, if_false] at h
+  generalize translateIndexed.match_3 (fun x => Bool) (Side.text _) _ _ _ = b at h
+  generalize (if (_ == ['A']) = true then 22 else if (_ == ['B']) = true then 21 else 27 : Nat) = k at h
+  by_cases hc : (row.ind.isNone || row.ind == some 0) = true
+  · rw [if_pos hc] at h; cases h
+  rw [if_neg hc] at h
+  repeat' split at h
+  all_goals first
+  | (cases h; done)
+  | (cases h; exact ⟨trivial, by codes_tac, Or.inl rfl, by simp, by simp⟩)
+  | (have hto := translateOffset_ok hN (extRaw_lt _) (createV_good N ‹createV _ _ _ = .ok _›) h
+     exact ⟨by rw [hto.1]; trivial, hto.2.2, hto.2.1, by simp,
+       fun _ => ⟨hright, Or.inr rfl⟩⟩)
 
 theorem translateExtIndirect_ok {N : Nat} (hN : 0 < N) {row : InstrRow} {o : Operand} {p : Pkg}
     (hres : OpRes N row o) (hk : o.kind = .extIndirect) (h : translateExtIndirect o row = .ok p) :
     PkgOK N row o p := by
-  have hraw : ∀ r, 0x80 ||| regBits r < 256 := fun r =>
-    or_lt_256 (by decide) (Nat.lt_trans (regBits_lt r) (by decide))
-  unfold translateExtIndirect at h
-  simp only [bind, Except.bind, pure, Except.pure, throw, throwThe, MonadExceptOf.throw] at h
-  repeat' split at h
-  all_goals first
+  have hleft := hres.left
+  have hright := hres.right
+  rcases o with ⟨kind, text, value, left, right⟩
+  dsimp only at hk hleft hright
+  subst hk
+  cases left <;> cases right
+  case val.some => exact translateExtIndirect_ok_val hN (hleft _ rfl) (hright (by simp)) h
+  case text.some => exact translateExtIndirect_ok_text hN (hright (by simp)) h
+  all_goals
+    unfold translateExtIndirect at h
+    simp only [bind, Except.bind, pure, Except.pure, throw, throwThe, MonadExceptOf.throw, Bool.and_false,
+      Bool.false_eq_true, if_false] at h
+    repeat' split at h
+    all_goals first
     | (cases h; done)
-    | (cases h; exact ⟨trivial, by codes_tac, Or.inl rfl, by simp [hk], by simp⟩)
-    | (have hto := translateOffset_ok hN (hraw _) (hres.left _ ‹o.left = Side.val _›) h
-       exact ⟨by rw [hto.1]; trivial, hto.2.2, hto.2.1, by simp [hk],
-         fun _ => ⟨hres.right (by simp [‹o.right = some _›]), Or.inr hk⟩⟩)
-    | (have hto := translateOffset_ok hN (hraw _) (createV_good N ‹createV _ _ _ = .ok _›) h
-       exact ⟨by rw [hto.1]; trivial, hto.2.2, hto.2.1, by simp [hk],
-         fun _ => ⟨hres.right (by simp [‹o.right = some _›]), Or.inr hk⟩⟩)
-
+    | (cases h; exact ⟨trivial, by codes_tac, Or.inl rfl, by simp, by simp⟩)
 
 theorem translatePseudo_ok {N : Nat} {row : InstrRow} {o : Operand} {p : Pkg}
     (hres : OpRes N row o) (hk : o.kind = .pseudo) (h : translatePseudo o row = .ok p) : PkgOK N row o p := by
